@@ -106,6 +106,10 @@ def runOp (st : St) (p : List String) : St × String :=
       let r := st.rpq.cancel tid
       ({ st with rpq := r.1, scripts := st.scripts.map fun e => if e.1 == tid then (tid, ([], e.2.2)) else e },
        if r.2 == .done "no-task" then "no-task" else showOut r.2)
+  | ["res", tid] =>
+    (st, match st.scripts.find? (·.1 == tid) with
+      | some (_, (_, acc)) => "[" ++ ";".intercalate acc ++ "]"
+      | none => "[]")
   | ["obs"] =>
     let ps := st.rpq.pipes.map fun q => s!"p{q.id}:q{q.queued},r{q.reserved},l{q.chan.length}"
     (st, s!"{" ".intercalate ps} ready={st.rpq.ready.length} wg={st.wgCount}")
